@@ -94,7 +94,7 @@ def gen_config(rng, tier, flavor="db"):
         if cfg["ploidy"] == 1 and cfg["initial"] == "dup_pairs":
             cfg["initial"] = "random"
         n_pos = len(cfg["n_alleles"])
-    if flavor in ("db", "cache") and rng.random() < 0.02:
+    if flavor in ("db", "cache") and rng.random() < (0.02 if flavor == "db" else 0.008):
         # rare long loci (beyond int8 / packed-key / table sizes): diploid, one or two reads, one iteration
         cfg["ploidy"] = rng.choice([2, 3, 3, 4])
         cfg["n_alleles"] = [rng.choice([2, 2, 2, 3]) for _ in range(rng.choice([23, 40, 70, 130, 140]))]
@@ -108,7 +108,7 @@ def gen_config(rng, tier, flavor="db"):
         cfg["initial"] = rng.choice(["near_dup_head", "near_dup_tail", "near_dup_head", "dup_all", "random"])
         # reads that pin the body of the haplotypes to two truths and say nothing about a few leading (trailing) sites: the
         # mutation sweep then keeps rows that differ ONLY there, so the structural moves meet near-duplicates in every iteration
-        cfg["read_style"] = rng.choice(["plain", "two_truths_gap_head", "two_truths_gap_head", "two_truths_gap_tail"])
+        cfg["read_style"] = rng.choice(["plain", "two_truths_gap_head", "two_truths_gap_head", "two_truths_gap_tail"]) if flavor == "db" else "plain"
         if cfg["read_style"] != "plain":
             cfg["ploidy"] = rng.choice([3, 4, 4])
             cfg["initial"] = "truth_rows"
